@@ -65,7 +65,9 @@ SUITES = {
                      ("km-rel", ["st_raw_replace_with__*", "st_remove__*", "rt_retain__s8_8g0", "en_occ_replace_with__*"])],
     },
     "C07": {
-        "quick": [("km", ["pan_raw_replace_entry_with__s8_4a", "pan_raw_replace_entry_with__s8_8g0", "pan_raw_replace_entry_with__s8_8g4"])],
+        "quick": [("km", ["pan_raw_replace_entry_with__s8_4a", "pan_raw_replace_entry_with__s8_8g0", "pan_raw_replace_entry_with__s8_8g4",
+                          "pan_replace_entry_with__s8_8g0", "pan_retain__s8_4a", "pan_retain__s8_8g0", "pan_drain_filter__s8_4a_m0111_at3",
+                          "pan_drain_filter__s8_8g0_m0110_at3", "pan_or_insert_with__u4f", "pan_or_insert_with__s8_4a", "pan_and_modify__s8_8g0"])],
         "thorough": [("km", ["pan_*"])],
     },
     "C08": {
@@ -99,7 +101,7 @@ SUITES = {
     "C06": {
         "quick": [("km", ["dr_insert__s8_4a", "dr_insert__u4f", "dr_remove__s8_4one", "dr_remove__s8_8g4", "dr_clear_drop__s8_8g4", "dr_clear_drop__s8_e",
                           "dr_retain__s8_8g0", "dr_drain__s8_4a_j1", "dr_drain__s8_4a_end", "dr_drain__s8_4a_j2f", "dr_into_iter__s8_4a_j1", "dr_into_iter__s8_8g4_end",
-                          "dr_drain_filter__s8_4a_m1101_j1", "dr_entry_replace_entry__s8_8g0", "dr_entry_replace_key__s8_8g0", "dr_entry_replace_with__s8_8g0",
+                          "dr_drain_filter__s8_4a_m1101_j1", "dr_entry_replace_entry__s8_8g0", "dr_entry_replace_key__s8_8g0", "dr_entry_replace_with__s8_8g0", "dr_entry_replace_with__s8_8g4",
                           "dr_entry_remove__s8_8g4", "dr_clone__s8_4a", "it_into_iter__s8_4a_j1"])],
         "thorough": [("km", ["dr_*", "it_into_iter__*"])],
     },
